@@ -13,8 +13,8 @@ TIERS = {
 NEED = {
     "C08": ["released", "releasedBridged", "releasedWithInterest", "atBoundary", "rejectedLoans", "withdrawnWithPledge", "repaid",
             "handedOver", "rewardPaid", "stableBorrowed", "walked", "confOkSteps", "drawn"],
-    "C09": ["seizures", "sweepSeizures", "bridgedSeizures", "bridged2Seizures", "safeLiquidateRequests", "nearSafeRequests", "nearSafeBridged2", "killedSteps", "blocks", "longWaits",
-            "v1Seizures", "v1SweepSeizures", "v1SafeRequests", "v1KilledSteps"],
+    "C09": ["seizures", "sweepSeizures", "bridgedSeizures", "bridged2Seizures", "safeLiquidateRequests", "nearSafeRequests", "nearSafeBridged2", "nearSafeEmode", "killedSteps", "blocks", "longWaits",
+            "v1Seizures", "v1SweepSeizures", "v1SafeRequests", "v1KilledSteps", "v1LongWaits", "v1SmallBatchRuns", "v1CursorWraps", "v1LateSeizures"],
     "C10": ["okBids", "partialBids", "closingBids", "oversizedBids", "priceChecks", "bridgedCloses", "ownerRefunds", "auctionBlocks", "restarts",
             "v1Bids", "v1PartialBids", "v1ClosingBids", "v1OversizedClosing", "v1Recreated", "v1AuctionBlocks", "v1Restarts"],
 }
@@ -102,11 +102,11 @@ def run(c, need=None):
         rule="every transition of the bounded profiles (same-pool, cross-pool, multi-pair, one asset in two pools; 2 users, amounts at the exact LTV boundary -1/0/+1, "
              "interest injection, price moves, foreign-owner attempts) is executed once on the real msg servers; plus seeded drives "
              "(3 users, 2 pools, 11 pairs, mixed decimals, time gaps up to a year, price moves aimed just below / above each position's liquidation threshold, sweep batch sizes 1..3, "
-             "circuit breaker, V2 liquidation messages and block sweeps, tiny / partial / exact / over-sized Dutch bids); each node is a TLC state of Trace_Lend"),
+             "circuit breaker, V2 liquidation messages and block sweeps, tiny / partial / exact / over-sized Dutch bids; first-generation behaviours with the borrow sweep as a cursor machine: batch 1 / 2 against 4 / 6 open borrows, full rounds of the cursor, then positions at the middle, head and tail of the list made unsafe after the cursor passed them); each node is a TLC state of Trace_Lend"),
         assumptions=["prices are written with MarketKeeper.SetTwa (band oracle stubbed: validation result true, no request pending)",
                      "amounts stay below 2^31 and collateral value * ratio denominators below 10^18, where the code's 18-decimal quotient decides exactly like the rational inequality",
                      "asset rate parameters have non-zero stable-rate parameters (the all-zero case divides by zero in interest calculation: reported separately)",
                      "a block whose hooks panic is not judged (it would halt the chain; C15)",
                      "the circuit breaker is toggled through the esm keeper setter (admin check is C12)",
-                     "C09/C10: lend-initiated liquidations and Dutch auctions of both generations (vault side: harbor family); the first-generation begin blockers are not wired into the app and are called directly after each block (as the repository's tests do), so no liveness bound is stated for the first-generation sweep",
+                     "C09/C10: lend-initiated liquidations and Dutch auctions of both generations (vault side: harbor family); the first-generation begin blockers are not wired into the app and are called directly after each block of a first-generation behaviour (as the repository's tests do); the bounded response of the first-generation borrow sweep (C09_BorrowLive_V1) is counted in runs of that sweep",
                      "after a first-generation locked vault has been overwritten (known finding C09-v1-locked-vault-id-counter-regresses) the rest of that behaviour is not judged"])
